@@ -278,4 +278,37 @@ pub fn gen(seed: u64, thorough: bool) {
         push_u(&mut line, same_wave as usize);
         println!("{}", line);
     }
+    // interpolation weights are settings too: on three compatible voices, an engine whose weights were set away from the
+    // defaults and then back to exactly the default vectors must synthesize like an engine that never touched them
+    // (seeded change C03k: a hidden "uniform" flag that only the defaults set, selecting another summation order)
+    for t in 0..(if thorough { 30 } else { 4 }) {
+        let (vs, cfg) = crate::c19::compatible_voices(&mut rng, 3, &src.pool, false);
+        let e1 = crate::c19::engine_of(vs.clone()).expect("compatible voices");
+        let mut e2 = crate::c19::engine_of(vs.clone()).expect("compatible voices");
+        let ns = cfg.nstream;
+        let d: Vec<f64> = e1.condition.get_interporation_weight().get_duration().to_vec();
+        {
+            let iw = e2.condition.get_interporation_weight_mut();
+            iw.set_duration(&[0.2, 0.3, 0.5]).expect("weights");
+            iw.set_duration(&d).expect("weights");
+            for s in 0..ns {
+                let p: Vec<f64> = e1.condition.get_interporation_weight().get_parameter(s).to_vec();
+                let g: Vec<f64> = e1.condition.get_interporation_weight().get_gv(s).to_vec();
+                iw.set_parameter(s, &[0.5, 0.25, 0.25]).expect("weights");
+                iw.set_parameter(s, &p).expect("weights");
+                iw.set_gv(s, &[0.25, 0.25, 0.5]).expect("weights");
+                iw.set_gv(s, &g).expect("weights");
+            }
+        }
+        let labels = src.labels(&mut rng, 2 + t % 2, false);
+        let w1 = catch(std::panic::AssertUnwindSafe(|| e1.synthesize(labels.clone()).map_err(|e| format!("{e}"))));
+        let w2 = catch(std::panic::AssertUnwindSafe(|| e2.synthesize(labels.clone()).map_err(|e| format!("{e}"))));
+        let same_wave = match (&w1, &w2) { (Ok(Ok(a)), Ok(Ok(b))) => bits_eq(a, b), _ => false };
+        let iw_same = { let (a, b) = (e1.condition.get_interporation_weight(), e2.condition.get_interporation_weight());
+            a.get_duration().to_vec() == b.get_duration().to_vec() && (0..ns).all(|s| a.get_parameter(s).to_vec() == b.get_parameter(s).to_vec() && a.get_gv(s).to_vec() == b.get_gv(s).to_vec()) };
+        let mut line = String::from("hist three-voices-weights-away-and-back");
+        push_u(&mut line, (getters(&e1) == getters(&e2) && iw_same) as usize);
+        push_u(&mut line, same_wave as usize);
+        println!("{}", line);
+    }
 }
